@@ -200,6 +200,8 @@ def validate_fronts():
 def run_dialects(prop):
     out = {"results": [], "crate_of": {}, "inconclusive": [], "violations": [], "known": [], "coverage": {}}
     mods = modules_for(tier(), seed())
+    if tier() == "quick":
+        mods = [m_ for m_ in mods if not m_.name.startswith("mr_")][:] + [m_ for m_ in mods if m_.name.startswith("mr_")][:1]
     replay_dir = os.path.join(VERIF, "replays", prop)
     programs = []
     n_static = 0
